@@ -256,6 +256,11 @@ def check(ctx, rep):
         rep.missing('R02.j', 'ResolveRegistry::register')
     else:
         c09.check_register(rep, 'R02.j', core, reg_fn)
+    # R02.k: a resolution the registry rejects (spent one-shot, finished stream, unknown id) is rejected towards the shell too: the bridge
+    # returns resume()'s error and runs the core only on its Ok edge (shared with C12 R12.b)
+    from rules.props import c12 as _c12
+    rep.rule('R02.k', 'the bridge returns every error of ResolveRegistry::resume and runs the core only when the resolution was accepted', floor=1)
+    _c12.check_resume_result(rep, 'R02.k', core, _c12.boundary_fns(core))
     rep.rule('R02.i', 'the arity state of a resolver (typed or serialised) is written only inside its own resolve', floor=2)
     c09.check_entry_writers(rep, 'R02.i', core)
     rep.assume('futures::channel::mpsc::unbounded and crux_core::capability::channel return two halves of one fresh FIFO channel')
